@@ -51,6 +51,21 @@ class Box:
     def n_kept(self):
         return len(self.items)
 
+    def make_own_list(self, n):
+        # the hosted value stays reachable inside the server: mutations through the returned proxy must be visible here
+        self.own = list(range(n))
+        return managed_list(self.own)
+
+    def own_snapshot(self):
+        return list(self.own)
+
+    def make_own_dict(self):
+        self.own_d = {}
+        return managed_dict(self.own_d)
+
+    def own_dict_snapshot(self):
+        return dict(self.own_d)
+
 
 try:
     ServerProcess.register('Box', Box)
